@@ -1,4 +1,5 @@
 import inspect
+import json
 import re
 import uuid
 from datetime import date
@@ -514,6 +515,10 @@ class JSON(Term):
             return self._get_list_sql(value, **kwargs)
         if isinstance(value, str):
             return self._get_str_sql(value, **kwargs)
+        if isinstance(value, bool):
+            return "true" if value else "false"
+        if value is None:
+            return "null"
         return str(value)
 
     def _get_dict_sql(self, value: dict, **kwargs: Any) -> str:
@@ -532,10 +537,13 @@ class JSON(Term):
 
     @staticmethod
     def _get_str_sql(value: str, quote_char: str = '"', **kwargs: Any) -> str:
-        return format_quotes(value, quote_char)
+        return json.dumps(value, ensure_ascii=False)
 
     def get_sql(self, secondary_quote_char: str = "'", **kwargs: Any) -> str:
-        sql = format_quotes(self._recursive_get_sql(self.value), secondary_quote_char)
+        json_sql = self._recursive_get_sql(self.value)
+        if secondary_quote_char:
+            json_sql = json_sql.replace(secondary_quote_char, secondary_quote_char * 2)
+        sql = format_quotes(json_sql, secondary_quote_char)
         return format_alias_sql(sql, self.alias, **kwargs)
 
     def get_json_value(self, key_or_index: Union[str, int]) -> "BasicCriterion":
